@@ -91,7 +91,8 @@ def run(ctx, replay):
             if tag == "COMP":
                 comps = [{"id": 200000 + i, "site": c["site"], "in": c["in"]} for i, c in enumerate(val)]
             if tag == "HIST":
-                hists = [{"id": 3000000 + i, "in": h} for i, h in enumerate(val)]
+                hists = [{"id": 3000000 + i, "in": h} for i, h in enumerate(
+                    sorted(val, key=lambda h: json.dumps(h, sort_keys=True)))]
             if tag == "AUTH":
                 auths = [{"id": 4000000 + i, "in": a} for i, a in enumerate(val)]
         if not comps or not hists or not auths:
@@ -224,9 +225,11 @@ def run(ctx, replay):
         if ev["e"] == "Hist":
             fam_viol["Hist"] += 1
             o = ev["out"]
-            ctx.violation("queue history max_tries=%d %s: %d attempt(s), report %s %s (Status %s) violates %s" % (
-                ev["in"]["mt"], json.dumps(ev["in"]["seq"]), o["attempts"], o["dcode"], o["denh"], o["status"],
-                ",".join(viol)),
+            ctx.violation("queue history max_tries=%d %s (failing at %s%s): %d attempt(s), report %s %s (Status %s) "
+                          "violates %s" % (
+                ev["in"]["mt"], json.dumps(ev["in"]["seq"]), ev["in"].get("pt", "rcpt"),
+                ", queue restarted between the attempts" if ev["in"].get("rs") else "",
+                o["attempts"], o["dcode"], o["denh"], o["status"], ",".join(viol)),
                 {"property": "C16", "hist": ev["in"], "row": ev, "violated": viol,
                  "how": "bin/check C16 --replay <this file>"})
             continue
